@@ -411,6 +411,15 @@ func Conts() []Doc {
 		{"ifmap", map[interface{}]interface{}{"a": i1, 2: i2, true: map[string]interface{}{"X": 1}}},
 		{"ifmap2", map[interface{}]interface{}{1: i1, "1": i3, [2]string{"a b", "c"}: i1, [2]string{"a", "b c"}: i3}},
 		{"items-all", []Item{i1, i3}},
+		// a long list with one element in the middle that makes every comparison of X fail
+		{"maps-long", func() []map[string]interface{} {
+			l := make([]map[string]interface{}, 2100)
+			for i := range l {
+				l[i] = map[string]interface{}{"X": i % 3, "Y": "a"}
+			}
+			l[1500] = map[string]interface{}{"X": []int{1}, "Y": 5}
+			return l
+		}()},
 		// lists of different lengths inside the elements: an index that some elements have and others do not
 		{"items-tags", []Item{i1, {X: 3, Y: "d", Tags: []string{"t", "b"}}, {X: 1, Y: "e", Tags: []string{"b", "t", "x"}}}},
 		{"smap-tags", map[string]Item{"long": {X: 3, Y: "d", Tags: []string{"t", "b"}}, "longer": {X: 1, Y: "e", Tags: []string{"b", "t", "x"}}}},
@@ -481,7 +490,7 @@ func MapsB() map[string]interface{} {
 	d["ok3"] = map[string]interface{}{"a": ok(2)}
 	d["ms"] = map[string]string{"z": "x"}
 	d["keys"] = []int{1, 2}
-	d["top"] = 6
+	d["top"] = 6.5 // another numeric kind under the same key (the other document has an int)
 	return d
 }
 
